@@ -359,3 +359,44 @@ func init() {
 		Outside: []string{"real-time slack of scheduler and sockets (bounds in virtual time)", "histories longer than the exchanges used to reach each state", "transports"},
 	})
 }
+
+func c15Insts(full bool) []Inst {
+	var out []Inst
+	poss := []int64{3}
+	if full {
+		poss = []int64{0, 2, 3, 5}
+	}
+	for _, pos := range poss {
+		for _, ev := range gwSNEvents(full) {
+			out = append(out, inst("gateway", "VH_C15_isolation", ev.kind, ev.arg, 0, pos))
+		}
+		for _, m := range []int64{2, 3, 4, 5, 6, 7, 9, 11, 13} {
+			out = append(out, inst("gateway", "VH_C15_isolation", -1, 0, m, pos))
+		}
+	}
+	out = append(out, inst("gateway", "VH_C15_accept", 2))
+	if full {
+		out = append(out, inst("gateway", "VH_C15_accept", 3))
+	}
+	return out
+}
+
+func init() {
+	reg(&Spec{
+		ID: "C15", Pkgs: []string{"gateway", "util"}, LoopBound: 400, ValidateN: 12, EngineOnly: []string{"VH_C15_accept"},
+		Subst: map[string]string{
+			"github.com/energomonitor/bisquitt/gateway.newUDPListener": "github.com/energomonitor/bisquitt/gateway.vStubListen",
+			"net.ResolveUDPAddr":        "github.com/energomonitor/bisquitt/gateway.vStubResolveUDP",
+			"(*net.Dialer).DialContext": "github.com/energomonitor/bisquitt/gateway.vDialFresh",
+		},
+		Quick:   func() []Inst { return c15Insts(false) },
+		Thor:    func() []Inst { return c15Insts(true) },
+		Asserts: []string{"C15.b_unaffected", "C15.own_broker_connection", "C15.others_broker_connection_untouched", "C15.ended_session_closes_its_broker_connection", "C15.other_sessions_survive", "C15.reply_goes_to_its_own_client", "C15.request_goes_to_its_own_broker_connection", "C15.accept_loop_ends_on_shutdown"},
+		Reach:   []string{"C15.a_acted", "C15.probe_done", "C15.all_connected", "C15.accept_done"},
+		Bounds: map[string]string{
+			"isolation": "differential non-interference: session B (client ID 'b'; CONNECT with symbolic keep-alive / clean flag, AUTH when enabled, CONNACK, REGISTER, PUBLISH on a symbolic predefined ID, SUBSCRIBE, broker PUBLISH; payload and password bytes symbolic) run once alone on private copies of the configuration and once sharing *handlerConfig and the PredefinedTopics map object with session A; A: arbitrary state, client ID (possibly 'b'), keep-alive and one registry entry, receives one client packet of every decodable MQTT-SN type (entirely symbolic body; malformed/illegal ones included) or one broker packet of every type with symbolic fields, then is terminated, before step 3 of B's history (thorough: steps 0, 2, 3, 5); auth on/off symbolic, gateway broker credentials one symbolic byte each; predefined topics for 'a', 'b' and '*'",
+			"accept":    "the real ListenAndServe accept loop with a stub listener yielding 2 (thorough 3) connections: one handler, one run() and one broker connection per accepted connection, each broker connection carrying its own client's CONNECT; an undecodable datagram ends session 0 only; a broker CONNACK reaches its own client only; shutdown ends the loop",
+		},
+		Outside: []string{"'each MQTT-SN peer address gets its own session' is pion/udp's per-address demultiplexing and the kernel: not encoded (the stub listener hands out connections)", "truly concurrent execution of two sessions on the Go scheduler (the argument is non-interference through shared objects, not interleaving)", "DTLS listener"},
+	})
+}
